@@ -540,13 +540,17 @@ UNSUPPORTED_REFACTORS = {
     "feat-book-3": "tick test of modify_order through a Result-returning helper used as `check_price(p).is_err()` (same class as rf2-book2-1): in "
                    "the whole-operation view the helper's Ok / Err values are joined and the test of the join is not correlated with the "
                    "comparison that built them",
-    "feat-book-4": "place_order / modify_order test `self.orders[id].order.status` on the table slot and copy the slot afterwards: the typestate does "
-                   "not transfer the refinement from the slot to the working copy; remove_order through the BTreeMap entry API "
-                   "(`Entry::Occupied` + `level.remove()`) is not one of the lock-step idioms",
     "feat-agents-3": "random agents rewritten as an in-place slot loop with the order sampler shared through a helper returning a tuple: the "
                      "per-slot model does not read the draws through the tuple-returning helper",
-    "feat-python-2": "get_market_data builds the dictionary with `with_capacity` + `insert` in a shared helper: the dictionary model reads "
-                     "`HashMap::from([..])` + `extend(from_fn(..))`",
+    # -- small everyday refactors (small-*)
+    "small-agents-1": "momentum (M, p) computed by `last_price.map_or((0, 0), |p| ..)`: the recurrence rule reads the `match` on the last price",
+    "small-agents-4": "random-agent draws through a tuple-returning sampler (same class as feat-agents-3)",
+    "small-book-3": "the loader iterates the saved orders by index (`for i in 0..state.orders.len()`): `state.orders[i]` is an index site the load-abort-free rule does not discharge from the range bound",
+    "small-book-5": "`!matches!(status, Status::New)` as the place_order guard and `vol != 0 && best <= price` as the loop guard: the status-guard anchor reads a comparison, not a `matches!` discriminant test",
+    "small-env-1": "the instruction is queued inside `create_order(..).map(|id| { push; id })`: the submission rules read the push in the function body, not in a combinator closure",
+    "small-env-2": "append_record is handed `level_2_data()` of the book directly and the snapshot field is assigned from the same local afterwards: the recording rule expects the snapshot field as the argument",
+    "small-market-3": "`order_books.each_ref().map(|book| ..)` instead of `array::from_fn(|i| ..)` for the all-asset level-2 query",
+    "small-market-5": "`From<Side> for bool` as `!matches!(side, Side::Ask)` and the level-drop test spelled as an early return on `count > 0`: table / drop-condition idioms",
     "feat-python-3": "the Python classes keep their own order count and refuse unknown ids before forwarding: forwarding becomes conditional on "
                      "wrapper-side bookkeeping which no rule proves equal to the core's order table (it also changes behaviour for invalid ids)",
     "feat-python-4": "optional n_levels argument: the array length becomes a runtime value, the array model needs a constant level count",
@@ -604,3 +608,9 @@ refactor("c14-new-mutator-through-api", ["C14", "C08", "C10", "C13"], (MKT, "   
 # a debug assertion is not an abort site, a plain assertion on the same condition is
 mutant("c16-assert-in-round", "C16", (COMMON, "pub fn round_price_up(p: f64, tick_size: f64) -> Price {\n", "pub fn round_price_up(p: f64, tick_size: f64) -> Price {\n    assert!(p < 1.0e9);\n"), expect="no-abort")
 refactor("c16-debug-assert-in-round", ["C16"], (COMMON, "pub fn round_price_up(p: f64, tick_size: f64) -> Price {\n", "pub fn round_price_up(p: f64, tick_size: f64) -> Price {\n    debug_assert!(tick_size > 0.0);\n"))
+
+# the dictionary written with `insert` (feat-python-2's idiom): a transposed family must still be reported
+import os as _os2
+_FP2 = _os2.path.join(_os2.path.dirname(_os2.path.abspath(__file__)), "refactors", "feat-python-2.diff")
+CASES.append(dict(kind="mutant", name="c19-insert-dict-family-transposed", props=["C19"], patch=_FP2, expect="dict",
+                  edits=[("rust/src/types.rs", 'py_data.insert(format!("n_bid_{i}"), n_bids.to_pyarray(py));', 'py_data.insert(format!("n_bid_{i}"), n_asks.to_pyarray(py));')]))
